@@ -1250,6 +1250,39 @@ fn schema_type_line(text: &str) -> String {
     }
 }
 
+/// The tokens every accepted `ShardInfo`'s sharder is asked about (Model/C08Shard.lean PROBE_TOKENS).
+const PROBE_TOKENS: [i64; 7] = [i64::MIN, -1, 0, 1, i64::MAX, 0x0123_4567_89ab_cdef, 0xA5A5_A5A5_A5A5_A5A5u64 as i64];
+
+/// What `open_connection` does next with the same option map: `ShardInfo::try_from(&options)`, and what every routed
+/// request then does with the result: `Sharder::shard_of`.  `sh=<shard>,<nr>,<msb>,<shards of the probe tokens>` /
+/// `sh=err:<label>`.  Oracle: every shard is below the announced shard count (a panic is caught by `guarded`).
+fn shard_token(options: &HashMap<String, Vec<String>>, orc: &mut Vec<String>) -> String {
+    match scylla::verif_hooks::sharding::shard_info_from_options(options) {
+        Err(label) => format!("sh=err:{}", label),
+        Ok((shard, nr, msb)) => {
+            let Some(count) = std::num::NonZeroU16::new(nr) else {
+                orc.push("ShardInfo::try_from accepted nr_shards = 0".to_owned());
+                return "sh=zero".to_owned();
+            };
+            if shard >= nr {
+                orc.push(format!("ShardInfo::try_from accepted shard {} of {}", shard, nr));
+            }
+            let sharder = scylla::routing::Sharder::new(count, msb);
+            let shards: Vec<String> = PROBE_TOKENS
+                .iter()
+                .map(|t| {
+                    let s = sharder.shard_of(scylla::routing::Token::new(*t));
+                    if s >= nr as u32 {
+                        orc.push(format!("shard_of(token {}) = {} with nr_shards = {}, msb_ignore = {}", t, s, nr, msb));
+                    }
+                    s.to_string()
+                })
+                .collect();
+            format!("sh={},{},{},{}", shard, nr, msb, shards.join("/"))
+        }
+    }
+}
+
 /// Runs `f` on a helper thread with a 2 MiB stack, the allocation counter on, and a watchdog.
 fn guarded(f: impl FnOnce() -> (String, Vec<String>) + Send + 'static) -> Option<Outcome> {
     let (tx, rx) = std::sync::mpsc::channel();
@@ -1376,22 +1409,38 @@ pub fn run(case: &str, ctx: &mut Ctx) -> String {
             let n = bs.len();
             let o = guarded(move || {
                 let mut buf = &bs[..];
+                let mut orc: Vec<String> = vec![];
                 let line = match scylla_cql::frame::response::Supported::deserialize(&mut buf) {
                     Err(_) => "supported err".to_owned(),
                     Ok(sup) => {
                         let f = ProtocolFeatures::parse_from_supported(&sup.options);
                         format!(
-                            "feat rl={} lwt={} tab={} mid={}",
+                            "feat rl={} lwt={} tab={} mid={} {}",
                             f.rate_limit_error.map(|x| x.to_string()).unwrap_or("-".into()),
                             f.lwt_optimization_meta_bit_mask.map(|x| x.to_string()).unwrap_or("-".into()),
                             f.tablets_v1_supported as u8,
-                            f.scylla_metadata_id_supported as u8
+                            f.scylla_metadata_id_supported as u8,
+                            shard_token(&sup.options, &mut orc)
                         )
                     }
                 };
-                (line, vec![])
+                (line, orc)
             });
             finish(o, n, "-", ctx)
+        }
+        // `r <n> <wire hex|->`: the real connection reader over the bytes, n requests in flight (c08reader.rs)
+        Some("r") if w.len() == 3 => {
+            let Some((n, wire)) = crate::c08reader::parse_r(&w) else { return "bad-case".into() };
+            let len = wire.len();
+            let o = guarded(move || crate::c08reader::run_r(n, wire));
+            finish(o, len, "-", ctx)
+        }
+        // `R <n> <lo> <cnt>`: one connection per stream id of the range; `k <n> <lo> <cnt>`: the handler map's lookup
+        Some(kind @ ("R" | "k")) if w.len() == 4 => {
+            let Some((n, lo, cnt)) = crate::c08reader::parse_args(&w) else { return "bad-case".into() };
+            let sweep = kind == "R";
+            let o = guarded(move || if sweep { crate::c08reader::run_sweep(n, lo, cnt) } else { crate::c08reader::run_lookups(n, lo, cnt) });
+            finish(o, 9 * cnt, "-", ctx)
         }
         // `e <cap> <frame hex>`: the error tail of the row iterator (items yielded after the first failing row)
         Some("e") if w.len() == 3 => {
